@@ -179,10 +179,137 @@ theorem refusal_preserves (gridAxes : List String) (dsVars : List MVar) (r : Reg
   rw [this]
   simp [hset]
 
+/-! ### the invariant behind "each (axes, position) slot holds ONE variable" -/
+
+/-- no two variables of one axis set sit on the same set of dimensions -/
+def Distinct (lst : List MVar) : Prop := lst.Pairwise (fun a b => sameSet a.dims b.dims = false)
+
+theorem sameSet_symm (a b : List String) : sameSet a b = sameSet b a := by
+  simp [sameSet, Bool.and_comm]
+
+theorem sameSet_trans (a b c : List String) (h1 : sameSet a b = true) (h2 : sameSet b c = true) :
+    sameSet a c = true := by
+  simp only [sameSet, Bool.and_eq_true, List.all_eq_true, List.contains_iff_mem] at *
+  exact ⟨fun x hx => h2.1 x (h1.1 x hx), fun x hx => h1.2 x (h2.2 x hx)⟩
+
+/-- one registration keeps the slots distinct, whether it appends or replaces -/
+theorem regOne_distinct (lst lst' : List MVar) (v : MVar) (ow : Bool) (h : Distinct lst)
+    (hr : regOne lst v ow = .ok lst') : Distinct lst' := by
+  unfold regOne at hr
+  split at hr
+  · split at hr
+    · cases hr
+      refine List.Pairwise.map _ ?_ h
+      intro a b hab
+      cases ha : sameSet a.dims v.dims <;> cases hb : sameSet b.dims v.dims <;>
+        simp only [Bool.false_eq_true, if_false, if_true]
+      · exact hab
+      · cases hav : sameSet a.dims v.dims with
+        | false => rfl
+        | true => rw [ha] at hav; cases hav
+      · cases hvb : sameSet v.dims b.dims with
+        | false => rfl
+        | true =>
+          have := sameSet_trans _ _ _ ha hvb
+          rw [hab] at this; cases this
+      · have := sameSet_trans _ _ _ ha (by rw [sameSet_symm]; exact hb)
+        rw [hab] at this; cases this
+    · cases hr
+  · rename_i hany
+    cases hr
+    have hnone : ∀ a ∈ lst, sameSet a.dims v.dims = false := by
+      intro a ha
+      cases hs : sameSet a.dims v.dims with
+      | false => rfl
+      | true => exact absurd (List.any_eq_true.2 ⟨a, ha, hs⟩) hany
+    exact List.pairwise_append.2 ⟨h, List.pairwise_singleton _ _, fun a ha b hb => by
+      simp only [List.mem_singleton] at hb; subst hb; exact hnone a ha⟩
+
+/-- … and so does a call naming any number of variables, refused half-way or not -/
+theorem regMany_distinct (lst : List MVar) (vs : List MVar) (ow : Bool) (h : Distinct lst) :
+    Distinct (regMany lst vs ow).1 := by
+  induction vs generalizing lst with
+  | nil => exact h
+  | cons v rest ih =>
+    unfold regMany
+    cases hr : regOne lst v ow with
+    | ok lst' => exact ih lst' (regOne_distinct lst lst' v ow h hr)
+    | error e => exact h
+
+/-- registry-level invariant -/
+def RegInv (r : Registry) : Prop := ∀ e ∈ r, Distinct e.2
+
+theorem set_inv (r : Registry) (key : List String) (v : List MVar) (hr : RegInv r) (hv : Distinct v) :
+    RegInv (r.set key v) := by
+  unfold Registry.set
+  split
+  · intro e he
+    simp only [List.mem_map] at he
+    obtain ⟨e0, he0, rfl⟩ := he
+    split
+    · exact hv
+    · exact hr e0 he0
+  · intro e he
+    rcases List.mem_append.1 he with h | h
+    · exact hr e h
+    · simp only [List.mem_singleton] at h; subst h; exact hv
+
+/-- **Every set_metrics call keeps "one variable per (axes, position) slot"** - by induction over
+    the call history this holds after any sequence of calls, with any overwrite flags, refused or
+    not (a new axis set is stored as given: its variables must sit at pairwise different positions,
+    which is what the property's quantifier assumes of every call). -/
+theorem setMetrics_inv (gridAxes : List String) (dsVars : List MVar) (r : Registry) (key : List String)
+    (names : List String) (ow : Bool) (hr : RegInv r)
+    (hnew : ∀ vs, names.mapM (fun n => dsVars.find? (fun v => v.name == n)) = some vs →
+      r.find? key = none → Distinct vs) :
+    RegInv (setMetrics gridAxes dsVars r key names ow).1 := by
+  unfold setMetrics
+  split
+  · exact hr
+  · split
+    · exact hr
+    · rename_i vs hvs
+      split
+      · rename_i lst hf
+        have hl : Distinct lst := by
+          unfold Registry.find? at hf
+          simp only [Option.map_eq_some_iff] at hf
+          obtain ⟨e, he, rfl⟩ := hf
+          exact hr e (List.mem_of_find?_eq_some he)
+        exact set_inv r key _ hr (regMany_distinct lst vs ow hl)
+      · rename_i hf
+        exact set_inv r key vs hr (hnew vs hvs hf)
+
+/-- the invariant over a whole history of calls -/
+theorem history_inv (gridAxes : List String) (dsVars : List MVar)
+    (calls : List (List String × List String × Bool)) (r : Registry) (hr : RegInv r)
+    (hnew : ∀ (r' : Registry) (key names : List String) (vs : List MVar),
+      names.mapM (fun n => dsVars.find? (fun v => v.name == n)) = some vs →
+      r'.find? key = none → (key, names) ∈ calls.map (fun c => (c.1, c.2.1)) → Distinct vs) :
+    RegInv (calls.foldl (fun acc c => (setMetrics gridAxes dsVars acc c.1 c.2.1 c.2.2).1) r) := by
+  induction calls generalizing r with
+  | nil => exact hr
+  | cons c cs ih =>
+    simp only [List.foldl_cons]
+    apply ih
+    · exact setMetrics_inv gridAxes dsVars r c.1 c.2.1 c.2.2 hr
+        (fun vs hvs hf => hnew r c.1 c.2.1 vs hvs hf (by simp))
+    · intro r' key names vs hvs hf hmem
+      exact hnew r' key names vs hvs hf (by simp only [List.map_cons, List.mem_cons]; exact Or.inr hmem)
+
 /-- non-vacuity -/
 example : Fresh [⟨"dx_c", ["xc"]⟩] [⟨"dx_g", ["xg"]⟩, ⟨"dx_r", ["xr"]⟩] := by
   refine ⟨by decide, ?_⟩
   simp [List.pairwise_cons]
   decide
+
+/-- non-vacuity: the empty registry (a Grid built without `metrics=`) meets the invariant, and two
+    variables at different positions are `Distinct` -/
+example : RegInv [] ∧ Distinct [⟨"dx_c", ["xc"]⟩, ⟨"dx_g", ["xg"]⟩] := by
+  constructor
+  · intro e he
+    cases he
+  · simp [Distinct, List.pairwise_cons]
+    decide
 
 end Xgcm.C16
